@@ -104,7 +104,8 @@ def run_model(name, sources, kinds, filters, queries, keys, maxlen, trees, live=
     d = core.workdir(PID, f"src_{name}")
     mod = f"MC{name}"
     (d / f"{mod}.tla").write_text(mc_module(mod, sources, kinds, filters, queries, keys))
-    args = ["-dump", "dot,actionlabels", "graph.dot"] if dump else []
+    # fixed fingerprint function: state ids in the dump (and so the seeded walk choice) are reproducible
+    args = ["-fp", "0"] + (["-dump", "dot,actionlabels", "graph.dot"] if dump else [])
     r = core.run_tlc(PID, mod, mc_cfg(maxlen, trees, live), workers=workers, args=args,
                      extra_modules=[d / f"{mod}.tla"], name=f"tlc_{name}", coverage=coverage, timeout=3000,
                      heap=heap, env={"JAVA_TOOL_OPTIONS": "-XX:ParallelGCThreads=2"})
@@ -185,6 +186,7 @@ class Graph:
                             nxt.append(d)
                 frontier = nxt
             comps.append((sid, info, sub, {s: self.pulled.get(s, 0) for s in sub}))
+        comps.sort(key=lambda c: json.dumps(c[1], sort_keys=True, default=repr))
         return comps
 
 
@@ -395,7 +397,7 @@ def replay_components(job):
 
 def object_level(ck, g, label, async_too=True):
     comps = g.components()
-    comps.sort(key=lambda c: -len(c[2]))
+    comps.sort(key=lambda c: -len(c[2]))  # stable: ties keep the canonical order
     nb = max(1, min(len(comps), NPROC * 3))
     batches = [comps[i::nb] for i in range(nb)]
     jobs = [(b, g.labels, g.label_text, async_too) for b in batches if b]
@@ -899,7 +901,7 @@ def _run(ck):
     if quick:
         ck.require_coverage(results["Flat"], ["Advance", "Query", "EndBody", "Finish"])
 
-    nwalks = {"Flat": 1300, "Tree": 500} if quick else {"Flat": 20000, "Tree": 8000}
+    nwalks = {"Flat": 2600, "Tree": 1000} if quick else {"Flat": 20000, "Tree": 8000}
     for name in ("Flat",):
         t0 = time.time()
         g = Graph(results[name].dir / "graph.dot")
